@@ -60,6 +60,7 @@ var c11Values = []struct {
 
 var c11Sources = []string{"variable", "field", "tag", "variable-over-field", "absent"}
 var c11KeyForms = []string{"ident", "strlit", "underscore"}
+var c11Nest = []string{"top", "if", "for", "forin-in-if", "else-of-elif"}
 
 var c11Shapes = func() []gen.Shape {
 	want := map[string]bool{"add_key": true, "get_key": true, "set_tag": true, "drop_key": true, "rename": true, "cast": true, "set_measurement": true,
@@ -78,7 +79,7 @@ var c11Shapes = func() []gen.Shape {
 }()
 
 func (c11) Plan(tier string, seed int64) []mon.Workload {
-	n := int64(len(c11Shapes) * len(c11Sources) * len(c11Values) * len(c11KeyForms))
+	n := int64(len(c11Shapes) * len(c11Sources) * len(c11Values) * len(c11KeyForms) * len(c11Nest))
 	rnd := int64(2500)
 	if tier == "thorough" {
 		rnd = 200000
@@ -97,9 +98,11 @@ func parseLit(text string) *gt.T { return c08Offender(text) }
 
 func (c11) build(c *mon.Ctx, workload string, i int64) c11Case {
 	var shape gen.Shape
-	var src, kf int
+	var src, kf, nest int
 	var val int
 	if workload == "table" {
+		nest = int(i % int64(len(c11Nest)))
+		i /= int64(len(c11Nest))
 		kf = int(i % int64(len(c11KeyForms)))
 		i /= int64(len(c11KeyForms))
 		val = int(i % int64(len(c11Values)))
@@ -108,6 +111,7 @@ func (c11) build(c *mon.Ctx, workload string, i int64) c11Case {
 		shape = c11Shapes[i/int64(len(c11Sources))]
 	} else {
 		kf, val, src = c.R.Intn(len(c11KeyForms)), c.R.Intn(len(c11Values)), c.R.Intn(len(c11Sources))
+		nest = c.R.Intn(len(c11Nest))
 		shape = c11Shapes[c.R.Intn(len(c11Shapes))]
 	}
 	v := c11Values[val]
@@ -206,15 +210,30 @@ func (c11) build(c *mon.Ctx, workload string, i int64) c11Case {
 			call.Kids[0] = gt.Ident(key)
 		}
 	}
+	// the call site: at top level or inside nested blocks (the subject
+	// variable, if any, is declared outside)
+	var site []*gt.T
 	switch shape.Name {
 	case "len", "load_json", "get_key":
-		stmts = append(stmts, gt.Assign("=", gt.Ident("r"), call), gt.Call("p", gt.Ident("r")))
+		site = []*gt.T{gt.Assign("=", gt.Ident("r"), call), gt.Call("p", gt.Ident("r"))}
 	default:
-		stmts = append(stmts, call)
+		site = []*gt.T{call}
+	}
+	switch c11Nest[nest] {
+	case "top":
+		stmts = append(stmts, site...)
+	case "if":
+		stmts = append(stmts, gt.If(gt.Bool(true), site...))
+	case "for":
+		stmts = append(stmts, gt.For(gt.Assign("=", gt.Ident("zi"), gt.Int(0)), gt.Bin("<", gt.Ident("zi"), gt.Int(1)), gt.Assign("=", gt.Ident("zi"), gt.Bin("+", gt.Ident("zi"), gt.Int(1))), site...))
+	case "forin-in-if":
+		stmts = append(stmts, gt.If(gt.Int(1), gt.ForIn("ze", gt.List(gt.Int(1)), site...)))
+	case "else-of-elif":
+		stmts = append(stmts, gt.If(gt.Bool(false), gt.Call("p", gt.Str("no"))).Elif(gt.Nil(), gt.Call("p", gt.Str("no"))).ElseDo(site...))
 	}
 	stmts = append(stmts, gt.Call("p", gt.Ident(key), gt.Call("get_key", gt.Ident(key)), gt.Call("len", gt.Ident(key)), gt.Ident("fresh"), gt.Ident("o"), gt.Ident("bt")))
 	shapeName := fmt.Sprintf("%s/%d%s", shape.Name, len(shape.Args), shape.Fixed)
-	return c11Case{Stmts: stmts, Point: pt, Cell: fmt.Sprintf("%s | %s | %s | %s", shapeName, source, v.Name, c11KeyForms[kf])}
+	return c11Case{Stmts: stmts, Point: pt, Cell: fmt.Sprintf("%s | %s | %s | %s", shapeName, source, v.Name, c11KeyForms[kf]+" | "+c11Nest[nest])}
 }
 
 func (k c11) Describe(c *mon.Ctx, workload string, i int64) any {
